@@ -277,6 +277,16 @@ class Reader:
         cm, attrs, anyattr = self.own_parts(node, doc, decls)
         return cm, None, attrs, anyattr, mixed, decls
 
+    def simple_base_named(self, node, doc):
+        """Is the simple content of this complex type (through its chain of complex bases) a NAMED simple type?"""
+        for sc in self.kids(node, "simpleContent"):
+            for ext in self.kids(sc, "extension"):
+                bq = self.qname(ext, ext.get("base"), doc)
+                if bq in self.comp["complexType"]:
+                    return self.simple_base_named(*self.comp["complexType"][bq])
+                return bq in self.comp["simpleType"]
+        return False
+
     def own_parts(self, node, doc, decls):
         cm = None
         for p in self.kids(node, "sequence", "choice", "all", "group"):
@@ -296,6 +306,7 @@ class Reader:
         elif cm is not None:
             t["content"] = ["elems", cm]
         t["attrs"], t["anyattr"] = attrs, anyattr
+        t["simple_base_named"] = self.simple_base_named(node, doc)
         t["decls"] = list(decls.values())
         names = [a["qname"] for a in attrs]
         if len(set(names)) != len(names):
